@@ -162,7 +162,7 @@ Print Assumptions C19_levels_rebuild.
    enables of SparseVector::load, on every path and in every mode, and a sparse vector written with w in place of
    hf loads as the one with hf. The loader's two sanity checks on (len, low) are hypotheses here: ones = low.len()
    and high.len() = low.len() + get_buckets(len, low.width()). That every natively built vector satisfies them is
-   the builder's invariant (C02's side), see C19_sparse_native_statement below. *)
+   the builder's invariant (C02's side): C19_sparse_native in Props/C19_sparse.v. *)
 Theorem C19_high_rebuild :
   forall sp m (H : list bool) (h0 : bitvec),
   bv_repr h0 H -> no_supports h0 -> lenB H + select_SUPERBLOCK_SIZE < 2 ^ 64 ->
@@ -178,14 +178,8 @@ Theorem C19_high_rebuild :
 Proof. exact high_rebuild. Qed.
 Print Assumptions C19_high_rebuild.
 
-(* NOT proved (see "partial" in tools/props.d/C19.json): the same for a sparse vector as the builder makes it, with
-   the two sanity checks discharged from the builder's invariant instead of assumed. *)
-Definition C19_sparse_native_statement : Prop :=
-  forall sp m w n ps sv, sv_build_set sp m w n ps = Ok (inl sv) ->
-  bv_len (sv_high sv) + select_SUPERBLOCK_SIZE < 2 ^ 64 ->
-  forall wh, sub_of wh (sv_high sv) ->
-  forall sp' m' rest,
-    sparse_dec sp' m' (sparse_enc m' (mksv (sv_len sv) wh (sv_low sv)) ++ rest) = IoOk (sv, rest).
+(* The same for a sparse vector as the builder makes it, with the two sanity checks discharged from the builder's
+   invariant instead of assumed: PROVED, see C19_sparse_native / C19_sparse_native_multiset in Props/C19_sparse.v. *)
 
 (* ---------------------------------------------------------------- non-vacuity *)
 
